@@ -16,6 +16,9 @@ import (
 
 func main() {
 	debug.SetGCPercent(3000)
+	// the generous GC percentage trades memory for speed; a soft memory limit (35% of RAM, at least 2 GiB) makes the
+	// collector work harder long before the machine runs out of memory (the sandbox has no memory cgroup)
+	debug.SetMemoryLimit(memoryLimit())
 	if len(os.Args) < 2 {
 		fmt.Println("usage: vcheck <ID>|list [--tier quick|thorough] [--replay file]")
 		os.Exit(2)
@@ -88,6 +91,26 @@ func main() {
 	guarded(c, func() { ch.Run(c) })
 	profStop()
 	os.Exit(c.Finish())
+}
+
+func memoryLimit() int64 {
+	limit := int64(8) << 30
+	if b, err := os.ReadFile("/proc/meminfo"); err == nil {
+		for _, l := range strings.Split(string(b), "\n") {
+			if strings.HasPrefix(l, "MemTotal:") {
+				f := strings.Fields(l)
+				if len(f) >= 2 {
+					if kb, err := strconv.ParseInt(f[1], 10, 64); err == nil {
+						limit = kb * 1024 * 35 / 100
+					}
+				}
+			}
+		}
+	}
+	if limit < 2<<30 {
+		limit = 2 << 30
+	}
+	return limit
 }
 
 // guarded runs f; a panic that escapes the check is classified by its innermost non-runtime frame: inside the
